@@ -61,8 +61,8 @@ CHECKS = {
         "design": "5/C15",
     },
     "C18": {
-        "text": "Secret-control packets (StaleKey, ReplayDetected, UnknownPathSecret): decode agrees with an independent wire-layout oracle on every input up to 64 bytes (total, exact), encode produces the oracle's wire image, and authenticate returns Some iff the verify call succeeded, calls it exactly once and over exactly the packet minus its tag; control and datagram decoders are total on arbitrary inputs up to 48 bytes. Discharged by Kani/CBMC on the real dc crate, bounded as stated. The property's 'any byte change is rejected' fails for UnknownPathSecret (header not authenticated): known finding with residual.",
-        "note": "A-aead: seal/open/HMAC are harness-side stand-ins; verify_slices_are_equal (FFI) stubbed by an equality model. NOT under contract: the stream packet codec, control/datagram encoders (round trips did not finish), path::secret::map reaction to control packets (concurrent maps, sockets). Most C18 harnesses are thorough tier.",
+        "text": "Secret-control packets (StaleKey, ReplayDetected, UnknownPathSecret): decode agrees with an independent wire-layout oracle on every input up to 64 bytes (total, exact), encode produces the oracle's wire image, and authenticate returns Some iff the verify call succeeded, calls it exactly once and over exactly the packet minus its tag; control and datagram decoders are total on arbitrary inputs up to 48 bytes; the stream packet decoder is total on arbitrary inputs (<= 40 bytes quick, <= 64 bytes with exact field agreement against a wire-layout oracle in the thorough tier); key::open::Application::{decrypt, decrypt_in_place}: a packet whose AEAD open or dedup check fails changes nothing (no key update is scheduled), the AEAD is called once over exactly (header, payload, tag). Discharged by Kani/CBMC on the real dc crate, bounded as stated. The property's 'any byte change is rejected' fails for UnknownPathSecret (header not authenticated): known finding with residual.",
+        "note": "A-aead: seal/open/HMAC are harness-side stand-ins; verify_slices_are_equal (FFI) stubbed by an equality model. NOT under contract: the stream packet encoder, control/datagram encoders (round trips did not finish), stream::recv::State (forged packet beyond max_data: no result in 16 min), path::secret::map reaction to control packets (concurrent maps, sockets). aws-lc AEAD calls, Dedup::check, tracing macros and zeroize's barrier are stubbed at the FFI boundary. Most C18 harnesses are thorough tier.",
         "design": "5/C18",
     },
     "C19": {
